@@ -9,25 +9,29 @@ open RtcModel.Stun RtcModel.StunRfc RtcModel.IcePrio RtcModel.C16Bytes RtcModel.
 
 /-- `off` is an attribute boundary of `pkt`: reached from offset 20 by stepping over complete attributes
 (4-byte header, value, padding to a multiple of 4) -/
-inductive Boundary (pkt : Bytes) : Nat → Prop
-  | start : Boundary pkt 20
-  | next {off : Nat} {t0 t1 l0 l1 : UInt8} {body : Bytes} :
-      Boundary pkt off → pkt.drop off = t0 :: t1 :: l0 :: l1 :: body → rd16 l0 l1 ≤ body.length →
-      Boundary pkt (off + 4 + rd16 l0 l1 + pad4 (rd16 l0 l1))
+inductive Boundary (pkt : Bytes) : Nat → List Nat → Prop
+  | start : Boundary pkt 20 []
+  | next {off : Nat} {sk : List Nat} {t0 t1 l0 l1 : UInt8} {body : Bytes} :
+      Boundary pkt off sk → pkt.drop off = t0 :: t1 :: l0 :: l1 :: body → rd16 l0 l1 ≤ body.length →
+      Boundary pkt (off + 4 + rd16 l0 l1 + pad4 (rd16 l0 l1)) (sk ++ [rd16 t0 t1])
 
-/-- the message carries an attribute of type `t` with value `v` at boundary `off` -/
+/-- the FIRST attribute of type `t` in the message is at boundary `off` and has value `v` (the boundary is
+reached from the header over attributes none of which has type `t`) -/
 def AttrAt (pkt : Bytes) (off t : Nat) (v : Bytes) : Prop :=
-  Boundary pkt off ∧ ∃ t0 t1 l0 l1 body, pkt.drop off = t0 :: t1 :: l0 :: l1 :: body ∧ rd16 t0 t1 = t ∧
+  (∃ sk, Boundary pkt off sk ∧ t ∉ sk) ∧ ∃ t0 t1 l0 l1 body, pkt.drop off = t0 :: t1 :: l0 :: l1 :: body ∧ rd16 t0 t1 = t ∧
     rd16 l0 l1 = v.length ∧ v.length ≤ body.length ∧ body.take v.length = v
 
-/-- **the credentials of RFC 8445 §7.3**: a USERNAME attribute `<ufrag>:…` and a MESSAGE-INTEGRITY
-attribute whose 20-byte value is HMAC(pwd, message up to the attribute with the length field pointing
-to its end). -/
+/-- **the credentials of RFC 8445 §7.3**: the FIRST USERNAME attribute is `<ufrag>:…` and the FIRST
+MESSAGE-INTEGRITY attribute has as its 20-byte value HMAC(pwd, message up to the attribute with the length
+field pointing to its end). Weaker than the RFC in one respect, because the code is: USERNAME is not required
+to precede MESSAGE-INTEGRITY (i.e. to be covered by the HMAC) — layout `mi-before-username` of the harness is
+accepted; this needs a valid HMAC under the local password and is therefore no forgery. The peer half of the
+USERNAME is unconstrained (the agent does not know it before the answer arrives). -/
 def Credentials (P : Prims) (ufrag pwd pkt : Bytes) : Prop :=
   (∃ off u tail, AttrAt pkt off 6 u ∧ u = ufrag ++ 58 :: tail) ∧
   (∃ off mac, AttrAt pkt off 8 mac ∧ mac.length = 20 ∧ mac = P.hmac pwd (withLength (pkt.take off) (off - 20 + 24)))
 
-theorem Boundary.ge20 {pkt : Bytes} {off : Nat} (hb : Boundary pkt off) : 20 ≤ off := by
+theorem Boundary.ge20 {pkt : Bytes} {off : Nat} {sk : List Nat} (hb : Boundary pkt off sk) : 20 ≤ off := by
   induction hb with
   | start => exact Nat.le_refl _
   | next _ _ _ ih => omega
@@ -43,7 +47,7 @@ theorem writeLen_eq_withLength (b : Bytes) (n : Nat) (h : 4 ≤ b.length) : writ
   | a :: b' :: c :: d :: rest, _ => simp [writeLen, withLength, be16]
 
 theorem verifyLoop_sound (P : Prims) (key pkt : Bytes) (off : Nat) (rest : Bytes) :
-    pkt.drop off = rest → Boundary pkt off → verifyLoop P key pkt off rest = true →
+    pkt.drop off = rest → (∃ sk, Boundary pkt off sk ∧ 8 ∉ sk) → verifyLoop P key pkt off rest = true →
       ∃ off' mac, AttrAt pkt off' 8 mac ∧ mac.length = 20 ∧ mac = P.hmac key (writeLen (pkt.take off') (off' - 20 + 24)) := by
   fun_induction verifyLoop P key pkt off rest with
   | case1 off t0 t1 l0 l1 body hlen => intro _ _ hv; simp at hv
@@ -58,12 +62,13 @@ theorem verifyLoop_sound (P : Prims) (key pkt : Bytes) (off : Nat) (rest : Bytes
   | case3 off t0 t1 l0 l1 body hlen ht ih =>
     intro hd hb hv
     have hd' := drop_step hd (rd16 l0 l1 + pad4 (rd16 l0 l1))
-    exact ih (by rw [← hd']; congr 1; omega) (Boundary.next hb hd (by omega)) hv
+    obtain ⟨sk, hsk, hn8⟩ := hb
+    exact ih (by rw [← hd']; congr 1; omega) ⟨_, Boundary.next hsk hd (by omega), by simp [hn8, Ne.symm ht]⟩ hv
   | case4 off rest hne => intro _ _ hv; simp at hv
 
 
 theorem usernameLoop_sound (pkt : Bytes) (off : Nat) (rest : Bytes) (o : Nat) (u : Bytes) :
-    pkt.drop off = rest → Boundary pkt off → usernameLoop off rest = some (o, u) → AttrAt pkt o 6 u := by
+    pkt.drop off = rest → (∃ sk, Boundary pkt off sk ∧ 6 ∉ sk) → usernameLoop off rest = some (o, u) → AttrAt pkt o 6 u := by
   fun_induction usernameLoop off rest with
   | case1 off t0 t1 l0 l1 body hlen => intro _ _ hv; simp at hv
   | case2 off t0 t1 l0 l1 body hlen ht hu =>
@@ -78,7 +83,8 @@ theorem usernameLoop_sound (pkt : Bytes) (off : Nat) (rest : Bytes) (o : Nat) (u
   | case4 off t0 t1 l0 l1 body hlen ht ih =>
     intro hd hb hv
     have hd' := drop_step hd (rd16 l0 l1 + pad4 (rd16 l0 l1))
-    exact ih (by rw [← hd']; congr 1; omega) (Boundary.next hb hd (by omega)) hv
+    obtain ⟨sk, hsk, hn6⟩ := hb
+    exact ih (by rw [← hd']; congr 1; omega) ⟨_, Boundary.next hsk hd (by omega), by simp [hn6, Ne.symm ht]⟩ hv
   | case5 off rest hne => intro _ _ hv; simp at hv
 
 theorem takeWhile_split (l : Bytes) (h : (58 : UInt8) ∈ l) :
@@ -122,21 +128,19 @@ theorem codeAuth_sound (P : Prims) (ufrag pwd pkt : Bytes) (h : codeAuth P ufrag
         · simp at hu
         · split at hu
           · simp at hu
-          · exact ⟨o, u, tail, usernameLoop_sound _ 20 _ o u rfl Boundary.start hu, ht⟩
+          · exact ⟨o, u, tail, usernameLoop_sound _ 20 _ o u rfl ⟨[], Boundary.start, by simp⟩ hu, ht⟩
       · simp at hu
     · -- MESSAGE-INTEGRITY
-      obtain ⟨off', mac, hat, hl, hm⟩ := verifyLoop_sound P pwd pkt 20 _ rfl Boundary.start hv
+      obtain ⟨off', mac, hat, hl, hm⟩ := verifyLoop_sound P pwd pkt 20 _ rfl ⟨[], Boundary.start, by simp⟩ hv
       refine ⟨off', mac, hat, hl, ?_⟩
-      have h20 : ∀ off, Boundary pkt off → 20 ≤ off := by
-        intro off hb; induction hb with
-        | start => exact Nat.le_refl _
-        | next _ _ _ ih => omega
+      obtain ⟨sk0, hb0, _⟩ := hat.1
+      have h20 : 20 ≤ off' := hb0.ge20
       have hlen : off' + 4 ≤ pkt.length := by
         obtain ⟨_, t0, t1, l0, l1, body, hd, _⟩ := hat
         have := congrArg List.length hd
         simp only [List.length_drop, List.length_cons] at this
         omega
-      rw [hm, writeLen_eq_withLength _ _ (by simp; have := h20 off' hat.1; omega)]
+      rw [hm, writeLen_eq_withLength _ _ (by simp; omega)]
   · simp at h
 
 
